@@ -247,6 +247,17 @@ class TransactionContext:
             raise ExpressionError("contains() requires 1 or 2 arguments: contains(pattern) or contains(text, pattern)")
         return pattern.upper() in text.upper()
 
+    @staticmethod
+    def _compile(pattern):
+        """Compile a regular expression the user wrote, ignoring letter case.
+
+        Without the compiler's FutureWarning ("possible nested set" for "[[a]"): the warnings
+        machinery would print to stderr and read this source file in the middle of an evaluation.
+        """
+        with warnings.catch_warnings():
+            warnings.filterwarnings('ignore', category=FutureWarning)
+            return re.compile(pattern, re.IGNORECASE)
+
     def _fn_regex(self, *args) -> bool:
         """Check if text matches regex pattern (case-insensitive).
 
@@ -263,7 +274,7 @@ class TransactionContext:
         try:
             # Use cached compiled pattern
             if pattern not in _regex_cache:
-                _regex_cache[pattern] = re.compile(pattern, re.IGNORECASE)
+                _regex_cache[pattern] = self._compile(pattern)
             return bool(_regex_cache[pattern].search(text))
         except re.error as e:
             raise ExpressionError(f"Invalid regex pattern: {e}")
@@ -373,7 +384,7 @@ class TransactionContext:
             raise ExpressionError("extract() requires 1 or 2 arguments: extract(pattern) or extract(text, pattern)")
 
         try:
-            match = re.search(pattern, text, re.IGNORECASE)
+            match = self._compile(pattern).search(text)
             if match and match.groups():
                 # (None when the group is optional and took no part in the match)
                 return match.group(1) or ''
@@ -450,7 +461,7 @@ class TransactionContext:
         if len(args) != 3:
             raise ExpressionError("regex_replace() requires 3 arguments: regex_replace(text, pattern, replacement)")
         text, pattern, replacement = str(args[0]), str(args[1]), str(args[2])
-        return re.sub(pattern, replacement, text, flags=re.IGNORECASE)
+        return self._compile(pattern).sub(replacement, text)
 
     def _fn_uppercase(self, *args) -> str:
         """Convert text to uppercase.
